@@ -164,6 +164,20 @@ type jstep struct {
 	Resp  jresp  `json:"resp"`
 	Same  bool   `json:"same,omitempty"`
 	After []jmsg `json:"after,omitempty"`
+	// Ctr: SQLite only — the trigger-maintained (queued, leased) counters the admission test reads, after the step
+	Ctr []int `json:"ctr,omitempty"`
+}
+
+// counters reads the SQLite store's queue_counters row (nil on the memory backend)
+func (b *backend) counters() []int {
+	if b.sql == nil {
+		return nil
+	}
+	q, l, err := b.sql.VerifCounters()
+	if err != nil {
+		return []int{-1, -1}
+	}
+	return []int{q, l}
 }
 
 type jhead struct {
@@ -1213,7 +1227,7 @@ func (q *qrun) runTrace(traceNo int, seed uint64) error {
 		if err != nil {
 			return err
 		}
-		st := jstep{K: "step", Now: clock.now, Op: op, Resp: resp}
+		st := jstep{K: "step", Now: clock.now, Op: op, Resp: resp, Ctr: b.counters()}
 		if sameSnap(snap, g.snap) {
 			st.Same = true
 		} else {
@@ -1320,7 +1334,7 @@ func (q *qrun) replay(path string) error {
 			if err != nil {
 				return err
 			}
-			out := jstep{K: "step", Now: clock.now, Op: op, Resp: resp}
+			out := jstep{K: "step", Now: clock.now, Op: op, Resp: resp, Ctr: b.counters()}
 			if prev != nil && sameSnap(snap, prev) {
 				out.Same = true
 			} else {
